@@ -496,6 +496,11 @@ func (o *ownCtx) held(fn *ssa.Function, hs *handleSet, from []ssa.Instruction, f
 	// deferred conditional release: defer func(){ if err != nil { h.Done() } }() — it covers the
 	// error exits it dominates (the Defer instruction acts as a separator for error exits only)
 	condDefers := map[ssa.Instruction]bool{}
+	// guardCells: the error-typed variables of fn whose nil-ness the deferred closures test before releasing.
+	// The deferred release covers an error exit only if that exit's error is the tested variable: the named
+	// error result, or the very cell the return loads its error from. (`if err != nil` in the closure says
+	// nothing about `return nil, fmt.Errorf(..)` when err is an ordinary local.)
+	var guardCells []*ssa.Alloc
 	for _, d := range findInstrs(fn, func(in ssa.Instruction) bool { _, ok := in.(*ssa.Defer); return ok }) {
 		df := d.(*ssa.Defer).Call.StaticCallee()
 		if df == nil || df.Blocks == nil || o.c.Parent(df) != fn {
@@ -507,7 +512,63 @@ func (o *ownCtx) held(fn *ssa.Function, hs *handleSet, from []ssa.Instruction, f
 		}
 		if len(findInstrs(df, func(in ssa.Instruction) bool { return o.isRelease(in, chs) })) > 0 {
 			condDefers[d] = true
+			if mc, ok := d.(*ssa.Defer).Call.Value.(*ssa.MakeClosure); ok {
+				for _, b := range df.Blocks {
+					ifi := ifOf(b)
+					if ifi == nil {
+						continue
+					}
+					x, _, isNilCmp := nilCmp(ifi.Cond)
+					if !isNilCmp {
+						continue
+					}
+					ld, isLd := x.(*ssa.UnOp)
+					if !isLd {
+						continue
+					}
+					fv, isFV := ld.X.(*ssa.FreeVar)
+					if !isFV || !types.Identical(ld.Type(), types.Universe.Lookup("error").Type()) {
+						continue
+					}
+					for i, v := range df.FreeVars {
+						if v == fv {
+							if al, isAl := mc.Bindings[i].(*ssa.Alloc); isAl {
+								guardCells = append(guardCells, al)
+							}
+						}
+					}
+				}
+			}
 		}
+	}
+	if os.Getenv("LP2P_DEBUG_OWN") == fnKey(fn) {
+		fmt.Printf("OWN guardCells in %s: %d condDefers=%d\n", fnKey(fn), len(guardCells), len(condDefers))
+	}
+	tiedToGuard := func(ret *ssa.Return) bool {
+		if len(guardCells) == 0 {
+			return true
+		}
+		ei := errResultIndex(fn)
+		if ei < 0 || ei >= len(ret.Results) {
+			return true
+		}
+		for _, cell := range guardCells {
+			if isNamedResultCell(fn, cell) {
+				return true
+			}
+			if ld, ok := ret.Results[ei].(*ssa.UnOp); ok && ld.Op == token.MUL {
+				if ld.X == ssa.Value(cell) {
+					return true
+				}
+				// through the result spill cell: `*spill = *cell; rundefers; return *spill`
+				if lv := loadedValue(ld); lv != nil {
+					if l2, ok := lv.(*ssa.UnOp); ok && l2.Op == token.MUL && l2.X == ssa.Value(cell) {
+						return true
+					}
+				}
+			}
+		}
+		return false
 	}
 	// `case ch <- h:` of a select: the edge into that case hands the handle on
 	selSend := func(b *ssa.BasicBlock, s int) bool {
@@ -534,45 +595,62 @@ func (o *ownCtx) held(fn *ssa.Function, hs *handleSet, from []ssa.Instruction, f
 		st := sel.States[k]
 		return st.Dir == types.SendOnly && hs.is(st.Send)
 	}
-	q := &Cut{Fn: fn, From: from, FromEdges: fromEdges,
-		EdgeCut: anyEdge(nilEdge, o.transferEdges(fn, hs), extraCut, selSend),
-		Sep: func(in ssa.Instruction) bool {
-			if exitClass == "error" && condDefers[in] {
+	runQ := func(useCond bool, want func(*ssa.Return) bool) (string, int) {
+		q := &Cut{Fn: fn, From: from, FromEdges: fromEdges,
+			EdgeCut: anyEdge(nilEdge, o.transferEdges(fn, hs), extraCut, selSend),
+			Sep: func(in ssa.Instruction) bool {
+				if useCond && exitClass == "error" && condDefers[in] {
+					return true
+				}
+				ok, why := o.consumes(fn, in, hs, depth)
+				if ok && os.Getenv("LP2P_DEBUG_OWN") == fnKey(fn) {
+					fmt.Printf("OWN sep in %s at %s: %s (%s)\n", fnKey(fn), o.c.Pos(instrPos(in)), describeInstr(in), why)
+				}
+				return ok
+			},
+			Target: func(in ssa.Instruction) bool {
+				if loopHead != nil && in == loopHead {
+					return true
+				}
+				ret, ok := in.(*ssa.Return)
+				if !ok {
+					return false
+				}
+				if !want(ret) {
+					return false
+				}
+				if returnCarries(ret, hs) {
+					return false
+				}
+				isErr := false
+				if ei := errResultIndex(fn); ei >= 0 {
+					isErr = !isNilConst(retVal(ret, ei))
+				}
+				if os.Getenv("LP2P_DEBUG_OWN") == fnKey(fn) {
+					fmt.Printf("OWN exit in %s at %s: isErr=%v class=%s val=%s\n", fnKey(fn), o.c.Pos(instrPos(ret)), isErr, exitClass, describeVal(retVal(ret, errResultIndex(fn))))
+				}
+				switch exitClass {
+				case "error":
+					return isErr
+				case "success":
+					return !isErr
+				}
 				return true
-			}
-			ok, why := o.consumes(fn, in, hs, depth)
-			if ok && os.Getenv("LP2P_DEBUG_OWN") == fnKey(fn) {
-				fmt.Printf("OWN sep in %s at %s: %s (%s)\n", fnKey(fn), o.c.Pos(instrPos(in)), describeInstr(in), why)
-			}
-			return ok
-		},
-		Target: func(in ssa.Instruction) bool {
-			if loopHead != nil && in == loopHead {
-				return true
-			}
-			ret, ok := in.(*ssa.Return)
-			if !ok {
-				return false
-			}
-			if returnCarries(ret, hs) {
-				return false
-			}
-			isErr := false
-			if ei := errResultIndex(fn); ei >= 0 {
-				isErr = !isNilConst(retVal(ret, ei))
-			}
-			if os.Getenv("LP2P_DEBUG_OWN") == fnKey(fn) {
-				fmt.Printf("OWN exit in %s at %s: isErr=%v class=%s val=%s\n", fnKey(fn), o.c.Pos(instrPos(ret)), isErr, exitClass, describeVal(retVal(ret, errResultIndex(fn))))
-			}
-			switch exitClass {
-			case "error":
-				return isErr
-			case "success":
-				return !isErr
-			}
-			return true
-		}}
-	return q.Run(o.c)
+			}}
+		return q.Run(o.c)
+	}
+	if exitClass != "error" || len(guardCells) == 0 {
+		return runQ(true, func(*ssa.Return) bool { return true })
+	}
+	w1, n1 := runQ(true, tiedToGuard)
+	if w1 != "" {
+		return w1, n1
+	}
+	w2, n2 := runQ(false, func(r *ssa.Return) bool { return !tiedToGuard(r) })
+	if w2 != "" {
+		w2 += " (the deferred release tests an error variable that this exit does not return)"
+	}
+	return w2, n1 + n2
 }
 
 // closureHandle maps the parent's handle aliases to the closure's free variables.
@@ -918,6 +996,21 @@ func isNamedResultCell(fn *ssa.Function, al *ssa.Alloc) bool {
 	for i := 0; i < res.Len(); i++ {
 		if n := res.At(i).Name(); n != "" && n != "_" && n == al.Comment {
 			return true
+		}
+	}
+	// unnamed results are spilled into synthetic cells too when the function has defers
+	// (`*cell = v; rundefers; t = *cell; return t`): a cell whose load is a Return operand
+	if al.Comment == "" && al.Referrers() != nil {
+		for _, r := range *al.Referrers() {
+			ld, ok := r.(*ssa.UnOp)
+			if !ok || ld.Op != token.MUL || ld.Referrers() == nil {
+				continue
+			}
+			for _, r2 := range *ld.Referrers() {
+				if _, isRet := r2.(*ssa.Return); isRet {
+					return true
+				}
+			}
 		}
 	}
 	return false
